@@ -2,6 +2,14 @@
 
 CLAIMS = [
     {
+        "property_id": "C01",
+        "level": "model_checking",
+        "technique": "TLA+ reference evaluator (Lexer/Literal/Grammar/Eval/ModArith) model-checked with TLC over every expression tree with <= K operators (MC_Eval.tla); every rendering replayed into the real library and random deep trees with literals of hundreds of digits recorded with the evaluation hook, both validated by TLC against Trace_Lang.tla",
+        "text": "MC_Eval.tla builds every tree with <= 2 (quick) / 3 (thorough) operators over + - * / ^ and literal / percentage leaves and checks that the declarative grammar reads each rendering back as that tree, that the F_p layer and the exact-rational layer of the evaluator agree, and that a division by zero (including 0 ^ -n) propagates as an error. Each rendering (quick: 52k strings) is evaluated by the real library; seeded random trees of depth <= 8 with literals up to 120 / 300 digits add the unbounded part. TLC (Trace_Lang.tla) re-evaluates every recorded query and every operator application reported by the hook and compares values modulo four primes (exactly where small), Ok/Err and result counts.",
+        "design_ref": "DESIGN.md section 5/C01",
+        "note": "Values beyond 30000 are compared in F_p for 4 primes near 2^15 (exact acceptance, ~1e-18 miss probability); exponents beyond |n| = 99 are outside the explored domain.",
+    },
+    {
         "property_id": "C14",
         "level": "model_checking",
         "technique": "TLA+ model of index building (IndexBuild.tla: workers x documents x tie sets) checked with TLC; recorded session histories with visible tie sets validated by TLC against Trace_IndexBuild.tla",
